@@ -9,7 +9,7 @@ from typing import Any, Dict, List
 
 from ..elements import as_poly, eq
 from ..interp import Arr, Interp, Obj, Raised, Unsupported
-from ..model import AnalysisError, Model
+from ..model import AnalysisError, Model, src
 from ..poly import Poly, Rat
 
 PID = "C20"
@@ -118,12 +118,19 @@ def specs(n: int):
         "trace": ([A], _sum(A[i, i] for i in R)),
         "transpose": ([A], arr(lambda i, j: A[j, i], n, n)),
         "eye": ([s, n], arr(lambda i, j: s if i == j else Poly(), n, n)),
+        "eye_field": ([field(value=s), n],
+                      arr(lambda i, j: s if i == j else Poly(), n, n)),
         "det": ([A], leibniz(A, n)),
         "sym_grad": ([field(grad=G)],
                      arr(lambda i, j: (G[i, j] + G[j, i]) * Fraction(1, 2),
                          n, n)),
         "div": ([field(grad=G)], _sum(G[i, i] for i in R)),
         "div_hdiv": ([field(div=Poly.sym("divu"))], Poly.sym("divu")),
+        # matrix-valued field: grad[i, j, k] = d u_ij / d x_k and
+        # (div u)_i = sum_j d u_ij / d x_j - NOT the gradient of the trace
+        "div_matrix": ([field(grad=T("H", n, n, n))],
+                       arr(lambda i: _sum(T("H", n, n, n)[i, j, j]
+                                          for j in R), n)),
         "grad": ([field(grad=G)], G),
         "identity": ([A], arr(lambda i, j: Poly.const(1 if i == j else 0),
                               n, n)),
@@ -156,6 +163,8 @@ IMPL = {
     "det": ("det", ("np", "jax")), "sym_grad": ("sym_grad", ("np", "jax")),
     "div": ("div", ("np", "jax")), "grad": ("grad", ("np", "jax")),
     "div_hdiv": ("div", ("np", "jax")),
+    "div_matrix": ("div", ("np", "jax")),
+    "eye_field": ("eye", ("jax",)),
     "cross": ("cross", ("np",)), "curl": ("curl", ("np",)),
     "curl_scalar": ("curl", ("np",)), "identity": ("identity", ("np",)),
 }
@@ -247,6 +256,41 @@ def _field_operators(model, rep):
                      f"({table[name][0]}) raises TypeError although the "
                      f"mirrored spelling assembles and the NumPy forms "
                      f"accept both", cls.node.lineno)
+    # the reflected operators are reached from a NumPy left operand
+    # (np.sqrt(2.) * u, v.grad[0] * u - attributes of the test function are
+    # plain arrays) only if the class opts out of NumPy's operator dispatch;
+    # with __array__ defined and no __array_ufunc__ = None NumPy tries to
+    # coerce the field and raises
+    has_array = "__array__" in cls.methods
+    opt_out = any(isinstance(n_, ast.Assign) and src(n_.targets[0]) ==
+                  "__array_ufunc__" and isinstance(n_.value, ast.Constant)
+                  and n_.value.value is None for n_ in cls.node.body)
+    cons = "JaxDiscreteField:numpy-left-operand"
+    if not has_array or opt_out:
+        rep.ok(R4, cons, "NumPy defers to the reflected operators "
+               "(__array_ufunc__ = None)")
+    else:
+        rep.fail(R4, cls.path, "JaxDiscreteField", cons,
+                 "the class defines __array__ but not __array_ufunc__ = "
+                 "None: for 'ndarray op field' NumPy does not return "
+                 "NotImplemented but tries to coerce the field, so "
+                 "np.sqrt(2.) * u * v raises ValueError while u * "
+                 "np.sqrt(2.) * v assembles", cls.node.lineno)
+    # a class with __getitem__ but no __iter__ is iterated by indexing until
+    # IndexError - which jax arrays never raise (indices are clamped): the
+    # documented idiom 'x, y = w.x' fails and f(*w.x) never terminates
+    cons = "JaxDiscreteField:iteration-protocol"
+    if "__getitem__" not in cls.methods or (
+            "__iter__" in cls.methods and "__len__" in cls.methods):
+        rep.ok(R4, cons, "__iter__ and __len__ delegate to the value")
+    else:
+        rep.fail(R4, cls.path, "JaxDiscreteField", cons,
+                 "the class defines __getitem__ but not __iter__ / "
+                 "__len__: unpacking a field ('x, y = w.x', the idiom of "
+                 "the documentation) raises and iterating over it "
+                 "(f(*w.x), zip(u, v)) never terminates, because jax "
+                 "clamps out-of-range indices instead of raising "
+                 "IndexError", cls.node.lineno)
     if n < 12:
         raise AnalysisError(f"only {n} operator obligations on "
                             f"JaxDiscreteField")
@@ -431,6 +475,10 @@ def run(model: Model, rep, tier: str) -> None:
         sp = specs(n)
         for key, (args, want) in sorted(sp.items()):
             fname, variants = IMPL[key]
+            if key == "eye_field":
+                # the unknown itself: an instance of the autodiff wrapper
+                args = [Obj(model.cls("skfem.autodiff", "JaxDiscreteField"),
+                            dict(args[0].attrs)), args[1]]
             for var in variants:
                 mod = MODS[var]
                 fn = model.func(mod, fname)       # anchor must exist
@@ -506,6 +554,19 @@ def run(model: Model, rep, tier: str) -> None:
 _H, _J = "skfem/helpers.py", "skfem/autodiff/helpers.py"
 _AD = "skfem/autodiff/__init__.py"
 MUTANTS = [
+    ("divergence of a matrix field traced over the tensor indices",
+     (_H, "            return np.einsum('ijj...->i...', u.grad)",
+      "            return np.einsum('iij...->j...', u.grad)"), "C20-R1"),
+    ("JAX divergence of a matrix field falls back to grad[0]",
+     ("skfem/autodiff/helpers.py",
+      "    if len(u.grad.shape) == 5:\n        # matrix-valued field: (div "
+      "u)_i = d u_ij / d x_j\n        return jnp.einsum('ijj...->i...', "
+      "u.grad)\n", ""), "C20-R1"),
+    ("autodiff field wrapper loses its iteration protocol",
+     (_AD, "    def __iter__(self):\n        return iter(self.value)\n\n",
+      ""), "C20-R4"),
+    ("autodiff field wrapper takes part in NumPy's operator dispatch",
+     (_AD, "    __array_ufunc__ = None\n", "    pass\n"), "C20-R4"),
     ("inverse accumulated in a buffer of the input's dtype",
      (_H, "    invA = zeros_like(A, dtype=np.result_type(A, 1.))",
       "    invA = zeros_like(A)"), "C20-R5"),
